@@ -588,9 +588,15 @@ func runTaintFiltered(c *core.Ctx, keep func(*Sink) bool) {
 		counts[s.Class]++
 		// the whole-text Safe(err.Error()) of a special-case printer is decided by R-SPECIAL-LEAF
 		if special[s.Fn] && len(s.Fn.Params) > 0 {
-			if call, ok := s.Val.(*ssa.Call); ok && call.Call.IsInvoke() && call.Call.Method.Name() == "Error" && call.Call.Value == ssa.Value(s.Fn.Params[0]) {
-				c.Ob(s.Name, s.Pos, true, "whole error text declared safe: guard decided by R-SPECIAL-LEAF")
-				continue
+			if call, ok := s.Val.(*ssa.Call); ok && call.Call.IsInvoke() && call.Call.Method.Name() == "Error" {
+				if call.Call.Value == ssa.Value(s.Fn.Params[0]) {
+					c.Ob(s.Name, s.Pos, true, "whole error text declared safe: guard decided by R-SPECIAL-LEAF")
+					continue
+				}
+				if why, ok := sentinelValue(c.P, call.Call.Value); ok {
+					c.Ob(s.Name, s.Pos, true, "constant text of a standard-library sentinel ("+why+")")
+					continue
+				}
 			}
 		}
 		set := e.Trace(s.Val)
